@@ -29,10 +29,14 @@ var worker *sb.Worker
 // known finding: break/continue/return/throw leaving a catch clause skips the finally clause
 const kCatchExit = "catch-exit-skips-finally"
 
+// known finding: a catch handler keeps the operands that were pending when the error was thrown
+const kPending = "catch-keeps-pending-operands"
+
 func gen(t *rapid.T) Case {
 	for tries := 0; ; tries++ {
 		prof := mini.Control
 		prof.NoExitFromCatchWithFinally = pbt.KnownActive(kCatchExit)
+		prof.NoCatchInsideHandler = pbt.KnownActive(kPending)
 		p := mini.Gen(t, prof)
 		r := mini.Run(p)
 		if r.Aborted && tries < 5 {
@@ -69,6 +73,9 @@ func oracle(c Case, ctx *pbt.Ctx) error {
 	}
 	if run.ErrInspect != c.Err {
 		return fmt.Errorf("final outcome differs: reference uncaught error %q, VM %q (class %s)", c.Err, run.ErrInspect, run.ErrClass)
+	}
+	if c.Prog != nil && c.Prog.RestrictedPending > 0 {
+		ctx.Excluded(kPending)
 	}
 	if c.Prog != nil && c.Prog.Restricted > 0 {
 		ctx.Excluded(kCatchExit)
